@@ -62,6 +62,7 @@ RULES = {
     "R6": RR.r6_child_by_clone,
     "R7": RR.r7_no_drop,
     "R16": RR.r16_ctor_funnel,
+    "R16l": RR.r16_literals_only,
     "R17": RR.r17_eq_fields,
     "R20": RR.r20_ownership_edges,
     "R8": _get(OR, "r8_attach_iff_tracked"),
@@ -84,6 +85,8 @@ RULES = {
     "R43": _get(XR, "r43_gradients_taken_on_every_path"),
     "R44": _get(XR, "r44_stateless_derivative"),
     "R46": _get(XR, "r46_update_formula"),
+    "R48": _get(XR, "r48_update_does_not_need_unique_buffers"),
+    "R50": _get(XR, "r50_only_update_reseats_handles"),
     "R29": _get(SR, "r29_matmul_adjoint_shapes"),
     "R31": _get(SR, "r31_reduce_last"),
     "R30": _get(GR, "r30_conv_geometry"),
@@ -97,30 +100,32 @@ RULES = {
     "R39": _get(IR, "r39_roll_adjoint_of_unroll"),
     "R40": _get(BR, "r40_broadcast"),
     "R41": _get(IR, "r41_multi_index"),
+    "R49": _get(IR, "r49_addend_coverage"),
     "R45": _get(DT, "r45_no_detached_dependence"),
     "R40c": _get(BR, "r40_alignment_only"),
+    "R47": _get(DT, "r47_no_operand_alias"),
 }
 
 # property -> rules (DESIGN.md section 4)
 PROPERTY_RULES = {
-    "C01": ["R9", "R8", "R5", "R27", "R6", "R24", "R11", "R25", "R23", "R26", "R45", "R10"],
+    "C01": ["R9", "R8", "R5", "R27", "R6", "R24", "R11", "R25", "R23", "R26", "R45", "R10", "R33", "R12", "R13", "R15", "R29", "R31", "R32", "R39"],
     "C02": ["R12", "R13", "R15", "R9", "R33", "R29", "R31", "R30", "R32", "R39", "R11", "R45"],
     "C03": ["R11", "R21"],
-    "C04": ["R40"],
-    "C05": ["R36", "R38", "R40c"],
+    "C04": ["R40", "R41"],
+    "C05": ["R36", "R38", "R40c", "R41", "R49"],
     "C06": ["R37", "R30"],
     "C07": ["R35", "R16"],
-    "C08": ["R1", "R2", "R3", "R4", "R7"],
-    "C09": ["R8", "R9", "R10", "R5", "R24"],
+    "C08": ["R1", "R2", "R3", "R4", "R7", "R50"],
+    "C09": ["R8", "R9", "R10", "R5", "R24", "R47"],
     "C10": ["R23", "R20", "R25", "R9", "R11", "R10", "R26", "R24", "R44"],
-    "C11": ["R24", "R5", "R27", "R6", "R26", "R9"],
-    "C12": ["R5", "R27", "R3", "R6", "R7", "R17", "R23"],
-    "C13": ["R21", "R22", "R28", "R42", "R43", "R46"],
+    "C11": ["R24", "R5", "R27", "R6", "R26", "R9", "R25"],
+    "C12": ["R5", "R27", "R3", "R6", "R7", "R17", "R23", "R47"],
+    "C13": ["R21", "R22", "R28", "R42", "R43", "R46", "R48"],
     "C14": ["R21", "R28", "R22", "R20", "R24", "R23", "R42", "R43", "R9", "R46"],
     "C15": ["R34", "R30"],
     "C16": ["R16", "R3", "R17", "R41"],
     "C17": ["R13", "R14", "R26", "R44"],
-    "C18": ["R20", "R21", "R7", "R8", "R16"],
+    "C18": ["R20", "R21", "R7", "R8", "R16l", "R9"],
     "C19": ["R19"],
 }
 
